@@ -238,6 +238,11 @@ def run(ctx):
     from .c06 import rule_bookmark
     rule_bookmark(ctx, mir, rid="R05.6")
 
+    # ------------------------------------------------------------------ R05.8 (shared with C04 R04.7)
+    # match ids decide which handlers are activated for an element
+    from .c04 import rule_absolute_indices
+    rule_absolute_indices(ctx, mir, rid="R05.8")
+
     ctx.not_decided += ["exactly-once delivery over all open/close sequences (needs the selector VM's run-time behaviour)", "text flushed before a tag is reported is rule R02.4 (C02)"]
     return ("Bookkeeping clauses of scoped dispatch read from the expanded syntax tree and MIR: balance and independence of handler activation, "
             "the kind/flag/token table across four functions, registration and iteration order, one-shot consumption of element/end-tag/end handlers.")
